@@ -560,24 +560,35 @@ def check_common(run, pkg):
         # (b) exhaustive small domain: every sequence of 3..5 frames with consecutive differences in {1,2,3,4} (336 sequences) + 2-frame ones
         bad = None
         n_seq = 0
+        # the classification is a property of the integer timesteps alone: when the test also reads the time unit dt, it is decided
+        # for the default and for small / large units (reduced or SI units are both in use)
+        DT = ("sym", "dt")
+        uses_dt = any(x == DT for x in walk(sc))
+        dts = (0.002, 1.0, 2e-15, 5e-3) if uses_dt else (0.002,)
         try:
-            for T in (2, 3, 4, 5):
-                for diffs in itertools.product((1, 2, 3, 4), repeat=T - 1):
+            for dtv in dts:
+                cases = []
+                for T in (2, 3, 4, 5):
+                    for diffs in itertools.product((1, 2, 3, 4), repeat=T - 1):
+                        cases.append(diffs)
+                cases += [(10, 45, 45, 450, 450, 4500), (1000, 1000, 1000, 1001), (5, 5, 50, 50)]
+                for diffs in cases:
                     seq = [7]
                     for d_ in diffs:
                         seq.append(seq[-1] + d_)
                     want = len(set(diffs)) == 1
                     n_seq += 1
-                    env = {TS: np.array(seq), T_: len(seq)}
+                    env = {TS: np.array(seq), T_: len(seq), DT: dtv}
                     got = bool(cev(sc, env))
                     if got != want:
-                        bad = f"timesteps {seq} are {'evenly' if want else 'unevenly'} spaced but are treated as {'evenly' if got else 'unevenly'} spaced"
+                        bad = (f"timesteps {seq}" + (f" with dt = {dtv}" if uses_dt else "") + f" are {'evenly' if want else 'unevenly'} spaced but are treated as "
+                               f"{'evenly' if got else 'unevenly'} spaced")
                         break
                 if bad:
                     break
             ok = False if bad else (True if tabled else None)
             run.ob("R-ALG", fq, "spacing", ok, "frames are classified as evenly spaced exactly when all timestep differences are equal",
-                   show(sc)[:100] + (" ; form in the idiom table" if tabled else f" ; form not in the idiom table (no counterexample among {n_seq} enumerated sequences - not a proof)"),
+                   show(sc)[:100] + (" ; form in the idiom table" if tabled else (" ; form not in the idiom table" + ("" if bad else f" (no counterexample among {n_seq} enumerated sequences - not a proof)"))),
                    witness=bad, loc=fi.loc(), sound=True)
         except (Unsupported, Exception) as e:  # noqa
             run.ob("R-ALG", fq, "spacing", True if tabled else None, "spacing test decidable", f"{type(e).__name__}: {e}", loc=fi.loc())
